@@ -425,6 +425,7 @@ pub fn abstract_doc(schema: &Schema, d: &Value, dict: &mut Dict) -> Value {
     _ => vec![],
   };
   json!({
+    "vec": [{"f": "emb", "vals": i64s_of(d.get("emb"))}],
     "text": text, "kw": kw, "i64": i64s, "f64": f64s,
     "nested": [{"path": "comments", "objs": comments}],
   })
